@@ -1,4 +1,69 @@
-/- Line protocol of C12: placeholder until the model of this property is built. -/
+import BertE.Gen.Names
+import BertE.Gen.Messages
+import BertE.Gen.Reactor
+import BertE.Gen.Early
+import BertE.Model.Early
+import BertE.Drv.C18
+import BertE.Drv.C07
+/- Line protocol of C12 (the pre-clone part of `handle_pull_request`):
+     `pr <status> <authorIsRobot 0|1> <hex src> <hex dst> <dstExists 0|1> <prs|-> <cmdline keys|-> <admins|->
+         <prAuthor> <robot> <refetch 0|1> [<author>:<hex text>]*`
+   `prs`: `id=STATUS,...` (the pull requests the host knows); the comments are those on the pull request before
+   the job, oldest first; `refetch`: the host re-reads the comment list after the greeting was posted (the mock
+   host does; then `handle_comments` sees the greeting as the robot's last comment).
+   Answer: `<decision> greet=<0|1> wait=<0|1> deps=<0|1> finished=<0|1> src=<0|1> dst=<0|1> ids=<id,..|->`
+   with `<decision>`: `redirect` | `silent:<Class>` | `message:<Class>` | `crash:<Class>` | `command:<name>` | `proceed`;
+   `wait` .. `dst`: the holds of `Props/C12.lean` (`src` / `dst`: not a producer / not a consumer). -/
 namespace BertE.Drv.C12
-def handle (_args : List String) : String := "bad-op"
+open BertE.Early BertE.Reactor
+
+def rowFlag (f : BertE.Gen.Names.ClassRow → Bool) (k : BertE.Names.Kind) : Option Bool :=
+  (BertE.Gen.Names.classes.find? (fun r => r.name == k.className)).map f
+
+def msgKind (cls : String) : Option String :=
+  (BertE.Gen.Messages.messages.find? (fun m => m.name == cls)).map (·.kind)
+
+/-- the table of the current source -/
+def genTbl : Tbl :=
+  { names := BertE.Drv.C18.genTbl
+    producer := rowFlag (·.cascadeProducer)
+    consumer := rowFlag (·.cascadeConsumer)
+    handled := BertE.Gen.Early.handledStatuses
+    merged := BertE.Gen.Early.mergedStatuses
+    kind := msgKind }
+
+def parsePrs (s : String) : Option (List (Nat × String)) :=
+  if s == "-" then some [] else
+  (s.splitOn ",").mapM (fun kv => match kv.splitOn "=" with
+    | [k, v] => k.toNat?.map (fun n => (n, v))
+    | _ => none)
+
+def b01 (b : Bool) : String := if b then "1" else "0"
+
+def showDecision : Decision → String
+  | .redirect => "redirect"
+  | .silent c => "silent:" ++ c
+  | .message c => "message:" ++ c
+  | .crash c => "crash:" ++ c
+  | .command n _ => "command:" ++ n
+  | .proceed _ => "proceed"
+
+def greetingText : List Char := "Hello".toList
+
+def handle (args : List String) : String :=
+  match args with
+  | "pr" :: status :: rob :: hsrc :: hdst :: dex :: prs :: cl :: adm :: pra :: robot :: refetch :: cs =>
+    match BertE.Drv.C18.unhexS hsrc, BertE.Drv.C18.unhexS hdst, parsePrs prs, cs.mapM BertE.Drv.C07.parseComment with
+    | some src, some dst, some prl, some comments =>
+      let reg := BertE.Drv.C07.genRegistry.withCmdLine (BertE.Drv.C07.csv cl)
+      let env : Env := ⟨BertE.Drv.C07.csv adm, pra, robot, []⟩
+      let greeted := comments.any (fun c => c.author == robot)
+      let seen := if !greeted && refetch == "1" then comments ++ [⟨robot, greetingText⟩] else comments
+      let i : Input := ⟨rob == "1", status, src, dst, dex == "1", greeted, handleComments reg env seen, prl⟩
+      let r := handlePr genTbl i
+      let ids := depIds i
+      s!"{showDecision r.decision} greet={b01 r.greeting} wait={b01 (waitSet i)} deps={b01 (depUnmet i)} finished={b01 (finished i)} src={b01 (srcForeign genTbl i)} dst={b01 (dstForeign genTbl i)} ids={if ids.isEmpty then "-" else ",".intercalate ids}"
+    | _, _, _, _ => "bad-op"
+  | _ => "bad-op"
+
 end BertE.Drv.C12
